@@ -62,6 +62,8 @@ type Unit struct {
 	curArgTypes []types.Type
 	lastArgTypes map[string][]types.Type
 	entryLocks int
+	sliceArr  map[string]string // named slice term -> its backing array term
+	arrayOfCache map[string]T
 }
 
 const maxPaths = 6000
@@ -1273,7 +1275,7 @@ func (u *Unit) sliceOp(st *State, x *ssa.Slice) Value {
 		_, hs := elemHeapName(es)
 		eq := T{"e!q", hs}
 		iq := T{"i!q", SInt}
-		st.assume(T{fmt.Sprintf("(forall ((e!q %s) (i!q Int)) (! (= %s %s) :pattern (%s)))", hs, u.selem(eq, sub, iq).S, u.selem(eq, sl, Add(iq, lo)).S, u.selem(eq, sub, iq).S), SBool})
+		st.assumeDef(T{fmt.Sprintf("(forall ((e!q %s) (i!q Int)) (! (= %s %s) :pattern (%s)))", hs, u.selem(eq, sub, iq).S, u.selem(eq, sl, Add(iq, lo)).S, u.selem(eq, sub, iq).S), SBool})
 		if tag, ok := u.eng.prov[sliceRoot(sl.S)]; ok {
 			u.eng.prov[sub.S] = tag
 		}
@@ -1388,7 +1390,7 @@ func (u *Unit) bind(st *State, t T, hint string) T {
 		return t
 	}
 	c := u.fresh("v."+hint, t.Sort)
-	st.assume(Eq(c, t))
+	st.assumeDef(Eq(c, t))
 	if tag, ok := u.eng.prov[t.S]; ok {
 		u.eng.prov[c.S] = tag
 	}
